@@ -32,7 +32,9 @@ func TestMain(m *testing.M) {
 
 // Case is one session brought into State, then ended by Event.
 //
-// State: early-credit (as mid; the client then opens stream 3 and widens its window at
+// State: blocked-s2c-bulk (as blocked-s2c, but the server, which gets its credit back from
+// the relay, has sent 1.5 MB on the stream and all of it waits for the client's window;
+// ended by client-close, server-close or closing) | early-credit (as mid; the client then opens stream 3 and widens its window at
 // once, before anything has been relayed toward it on that stream, and the server
 // answers stream 3 afterwards) | burst (300 short complete requests, HEADERS with
 // END_STREAM, sent back to back by the client and answered one by one by the server as
@@ -81,7 +83,7 @@ type Case struct {
 var collect = os.Getenv("C10_COLLECT") != ""
 
 var (
-	states   = []string{"dialing", "handshake", "idle-no-alpn", "queued-s2c", "idle", "mid", "blocked-c2s", "blocked-s2c", "backedup-c2s", "backedup-s2c", "backedup-s2c-upload", "early-credit", "burst"}
+	states   = []string{"dialing", "handshake", "idle-no-alpn", "queued-s2c", "idle", "mid", "blocked-c2s", "blocked-s2c", "backedup-c2s", "backedup-s2c", "backedup-s2c-upload", "early-credit", "burst", "blocked-s2c-bulk"}
 	events   = []string{"bad-preface", "closing-first", "server-close-slow-client", "server-close-slow-client-credit", "server-close-slow-client-credit-close", "client-close", "server-close", "server-reset", "client-write-fail", "client-read-deadline", "client-ack-write-fail", "client-proto-error", "server-proto-error", "closing"}
 	variants = []string{"continuation-without-headers", "bad-padding", "settings-bad-length", "max-frame-size-zero", "settings-invalid-value"}
 
@@ -116,7 +118,7 @@ func valid(c Case) bool {
 	if c.State == "backedup-s2c-upload" {
 		return c.Event == "closing" || c.Event == "server-close"
 	}
-	if c.State == "early-credit" || c.State == "burst" {
+	if c.State == "early-credit" || c.State == "burst" || c.State == "blocked-s2c-bulk" {
 		return c.Event == "client-close" || c.Event == "server-close" || c.Event == "closing"
 	}
 	if (c.State == "handshake") != (c.Event == "bad-preface" || c.Event == "closing-first" || (c.State == "handshake" && (c.Event == "client-close" || c.Event == "closing"))) {
@@ -164,7 +166,7 @@ func arrange(c Case, s *h2kit.Session, bound time.Duration) string {
 	case "blocked-c2s":
 		sInit = []h2kit.Setting{{ID: 4, Val: 0}}
 		cl.SetAutoAck(false) // the client has not processed the server's SETTINGS yet
-	case "blocked-s2c", "queued-s2c":
+	case "blocked-s2c", "queued-s2c", "blocked-s2c-bulk":
 		cInit = []h2kit.Setting{{ID: 4, Val: 0}}
 		sv.SetAutoAck(false)
 	case "backedup-c2s":
@@ -184,7 +186,7 @@ func arrange(c Case, s *h2kit.Session, bound time.Duration) string {
 	if c.State == "blocked-c2s" {
 		svAcks = 0
 	}
-	if c.State == "blocked-s2c" || c.State == "queued-s2c" {
+	if c.State == "blocked-s2c" || c.State == "queued-s2c" || c.State == "blocked-s2c-bulk" {
 		clAcks = 0
 	}
 	if !sv.Wait(bound, func(r *h2kit.Rec) bool { return (r.PrefaceOK && len(r.Settings) >= 1 && r.Acks >= svAcks) || r.Done }) ||
@@ -257,12 +259,16 @@ func arrange(c Case, s *h2kit.Session, bound time.Duration) string {
 			// (not waited for: a relay that chokes here has to end the session all the same)
 			cl.Wait(bound/6, func(r *h2kit.Rec) bool { return r.DataBytes[3] >= 1000 || r.Done })
 		}
-	case "blocked-c2s", "blocked-s2c", "queued-s2c":
+	case "blocked-c2s", "blocked-s2c", "queued-s2c", "blocked-s2c-bulk":
 		S, R := cl, sv
 		if c.State != "blocked-c2s" {
 			S, R = sv, cl
 		}
-		if c.State == "queued-s2c" {
+		if c.State == "blocked-s2c-bulk" {
+			// as fast as the relay takes it (it returns the credit for what it accepts); a relay
+			// that stops taking more at some point is no reason to wait longer
+			S.SendBulk(1, 16384, 1500000, 300*time.Millisecond)
+		} else if c.State == "queued-s2c" {
 			for i := 0; i < 40; i++ {
 				S.WriteData(1, kit.Bytes(uint64(i), 100), -1, false)
 			}
@@ -273,7 +279,11 @@ func arrange(c Case, s *h2kit.Session, bound time.Duration) string {
 			S.WriteHeaders(h2kit.HeadersSpec{Stream: 1, Pad: -1, EndStream: true, Fields: []h2kit.Field{{N: "x-trail", V: "1"}}})
 		}
 		S.WritePing(false, h2kit.MarkerPing(1))
-		if !R.Wait(bound, func(r *h2kit.Rec) bool { return r.HasMarker(1) || r.Done }) {
+		if c.State == "blocked-s2c-bulk" {
+			// (no barrier here: whether the relay still forwards anything at this point is
+			// not the question of this property; the session has to end all the same)
+			R.Wait(bound/6, func(r *h2kit.Rec) bool { return r.HasMarker(1) || r.Done })
+		} else if !R.Wait(bound, func(r *h2kit.Rec) bool { return r.HasMarker(1) || r.Done }) {
 			return "barrier PING was not forwarded"
 		}
 		held := false
@@ -473,6 +483,10 @@ func runOnce(c Case, bound time.Duration) (v kit.Verdict, slow bool) {
 			// before and after the offending frame
 			for i := 0; i < 100; i++ {
 				other.WriteData(1, []byte{byte(i)}, -1, false)
+			}
+			// ... and the offender itself has frames under way that the relay is still writing out
+			for i := 0; i < 60; i++ {
+				bad.WriteData(1, []byte{byte(i)}, -1, false)
 			}
 			malformed(bad, c.Variant)
 			for i := 0; i < 100; i++ {
